@@ -102,6 +102,19 @@ INDEX = {
  "C13-4": ("pillar Delegate no longer rewrites its call data to the canonical packing", "a Delegate call with non-canonical call data (offsets, padding, trailing bytes) hashed and signed over those bytes"),
  "C14-3": ("hash tie-break applied even when the plasma ratios differ: no antisymmetric winner, nodes keep what they saw first", "two competing blocks, the higher-ratio one with the larger hash arriving second"),
  "C14-4": ("the pool's per-account version manager applies a new block in place on its parent's state", "a reader holding a view across an insertion, or any fork replacement"),
+ "C15-3": ("GetBlocks handler stops gathering at MaxHashFetch (512) instead of MaxBlockFetch (128): one reply carries up to 512 momentums", "a GetBlocksMsg resolving to more than 128 momentums (129+ known hashes, or one known hash repeated)"),
+ "C15-4": ("downloader ties a hash pack to the cycle if its sender is any registered peer: an unsolicited BlockHashesMsg from a third peer during the hash-download phase gets the honest sync peer dropped",
+           "two registered peers, a cycle in its hash-download phase, the third peer's pack arriving in that window"),
+ "C16-3": ("off by one in the restore decision added by d61542a: a failing side chain whose verified part is exactly as long as what it replaced is kept", "a fork at depth d, the delivered chain valid for exactly d momentums, momentum d+1 invalid"),
+ "C16-4": ("momentum verifier no longer requires the delivered account blocks to be exactly the content: extra individually valid blocks are accepted and pooled", "a delivered momentum carrying an additional valid block of an untouched account"),
+ "C17-3": ("unimplemented-spork halt check uses < instead of <=: the node keeps running at the enforcement height itself", "an activated spork the node does not implement, frontier exactly at its enforcement height (running or restarted there)"),
+ "C17-4": ("a pending activation can be repeated: the enforcement height moves", "ActivateSpork sent again and received within the 6 momentums before enforcement"),
+ "C18-3": ("JSON parse of a block with N descendant blocks yields 2N entries, the first N nil", "the API-level parse of a contract receive that generated sends"),
+ "C18-4": ("HTTP body no longer limited when no length is declared: a chunked request of any size is read and executed", "a request over 5 MiB with Transfer-Encoding: chunked"),
+ "C19-3": ("cipher text decrypted in place: the in-memory key file is overwritten by Decrypt", "the same KeyFile object decrypted twice, after a wrong password, or written back after use"),
+ "C19-4": ("password truncated to 128 bytes before key derivation", "two passwords of at least 128 bytes sharing their first 128 bytes"),
+ "C20-3": ("spork contract always counted as already built: a balance declared for it is validated but no genesis block is built when the configuration has no spork section", "no SporkConfig and a GenesisBlocks entry for the spork contract address"),
+ "C20-4": ("'found' flag hoisted out of the undeclared-token loop: whether a balance in an undeclared token is refused depends on map iteration order", "a balance in a token without TokenInfo next to declared tokens"),
 }
 
 CAUGHT = json.load(open("/verif/seeded/results.json")) if os.path.exists("/verif/seeded/results.json") else {}
